@@ -131,7 +131,12 @@ def _compare(ctx, spec, wholegraph, outs, bs, given, bidx, seed, got, err, where
     if extras and extras <= set(stored_extra or ()):
         # a pool adds stored-but-missing nodes to the outputs so that they can be stored (C05); check them too
         outs = list(outs) + sorted(extras)
-        ref, ran = sg.interp(spec, outs, bs, given, bidx, seed, cut_given=(rej is not None))
+        try:
+            ref, ran = sg.interp(spec, outs, bs, given, bidx, seed, cut_given=(rej is not None))
+        except sg.Reject as r:
+            # the pool-added output needs observed data that depends on a stochastic node, and elfi evaluated it
+            raise Violation(_classify_reject(r.args[0], False), '%s: a pool-added output (%s) needs observed data that depends on a stochastic node (%s) '
+                            'but was evaluated, not rejected' % (where, sorted(extras), r.args[0]), {'outputs': names, 'extras': sorted(extras)})
         ctx.event('pool_added_outputs', len(extras))
     if set(got) != set(ref):
         raise Violation('output-set', '%s: returned outputs %s, requested %s' % (where, sorted(got), sorted(ref)))
